@@ -18,9 +18,16 @@
      octets l            := every element is in 0..255
      cd_ie pre           := pre = [] or pre = [100; a; b2; b3]   (the optional CBCH Channel Description IE, tag 0x64)
      cd_fields pre c     := c, or the members decoded from a, b2, b3 by 44.018 10.5.2.5
-     114 = 0x72 is the tag of the CBCH Mobile Allocation IE, -5 = -EIO, 101 = 0x65 = GSM48_RR_CAUSE_NO_CELL_ALLOC_A. *)
+     114 = 0x72 is the tag of the CBCH Mobile Allocation IE, -5 = -EIO, 101 = 0x65 = GSM48_RR_CAUSE_NO_CELL_ALLOC_A.
+   The SI4 / SI1 history (Model/MobAllocHist.v), third part of this file:
+     cell                := (c_st = freq / hopping / hopp_len, c_cb = CBCH channel description, c_si1, c_si4 = the flags, c_buf = si4_msg[23])
+     sysinfo4 msg x      := gsm48_decode_sysinfo4 on the whole message msg (13 fixed octets + payload, any length): memcpy of
+                            min(len, 23) octets into si4_msg, then si4_tail; si4 := 1 on success;  CRet rc cell | COOB
+     sysinfo1 freq1 x    := the tail of gsm48_decode_sysinfo1: table := freq1 (what decode_freq_list left), si1 := 1, and if si4 is set
+                            sysinfo4 on the stored buffer with length 23, result ignored
+     cell_ok x           := |c_buf x| = 23, octets, |freq| = 1024, |hopping| = 64. *)
 From Coq Require Import ZArith List.
-From OBB Require Import Base.Range Gen.MobAllocConst Gen.MobAllocSi4Const Model.MobAlloc Model.MobAllocSi4 Proofs.MobAllocP Proofs.MobAllocSi4P.
+From OBB Require Import Base.Range Gen.MobAllocConst Gen.MobAllocSi4Const Model.MobAlloc Model.MobAllocSi4 Model.MobAllocHist Proofs.MobAllocP Proofs.MobAllocSi4P Proofs.MobAllocHistP.
 Import ListNotations.
 Open Scope Z_scope.
 
@@ -212,3 +219,92 @@ Theorem c20_render_long_stale : forall l v freq ma ma_len, 8 < l < 256 ->
   render_ma (l :: v) freq ma ma_len = Ok (if ma_len <? 1 then 101 else 0) (mkst freq ma ma_len).
 Proof. exact render_long. Qed.
 Print Assumptions c20_render_long_stale.
+
+(* ==================================================================== SI4 stored, re-decoded when SI1 arrives *)
+
+Theorem c20_hist_constants : c_SI4_MSG_SIZE = 23 /\ c_SI4_HDR_SIZE = 13.
+Proof. exact hist_constants. Qed.
+Print Assumptions c20_hist_constants.
+
+(* one SI4 of ANY length >= 13 (also longer than si4_msg) into any cell: no access outside the message, si4_msg, the tables; the
+   buffer afterwards holds the first min(len, 23) octets of the message followed by the octets that were there before; -EIO leaves
+   list / hopp_len / flags and the si4 flag as they were *)
+Theorem c20_hist_si4_in_bounds : forall msg x,
+  octets msg -> 13 <= Zlength msg -> cell_ok x ->
+  exists rc x', sysinfo4 msg x = CRet rc x' /\ cell_ok x' /\ c_si1 x' = c_si1 x /\
+    c_buf x' = firstn (Z.to_nat (Z.min (Zlength msg) 23)) msg ++ skipn (Z.to_nat (Z.min (Zlength msg) 23)) (c_buf x) /\
+    ((rc = 0 /\ c_si4 x' = 1) \/ (rc = -5 /\ c_st x' = c_st x /\ c_si4 x' = c_si4 x)).
+Proof. exact sysinfo4_safe. Qed.
+Print Assumptions c20_hist_si4_in_bounds.
+
+(* SI1 into a cell with ANY buffer content: the re-decode of the stored SI4 reads only si4_msg[0..22] (and the decoder only inside
+   that), returns 0, leaves the buffer as it is *)
+Theorem c20_hist_si1_in_bounds : forall freq1 x,
+  cell_ok x -> Zlength freq1 = 1024 ->
+  exists x', sysinfo1 freq1 x = CRet 0 x' /\ cell_ok x' /\ c_si1 x' = 1 /\ c_buf x' = c_buf x.
+Proof. exact sysinfo1_safe. Qed.
+Print Assumptions c20_hist_si1_in_bounds.
+
+(* what the re-decode is: the SI4 tail on the ten octets si4_msg[13..22] with si1 = 1 and the new table; its return code is dropped *)
+Theorem c20_hist_si1_redecode : forall freq1 x,
+  Zlength (c_buf x) = 23 -> c_si4 x <> 0 ->
+  sysinfo1 freq1 x =
+    match si4_tail (skipn 13 (c_buf x)) 1 (mkst freq1 (s_hop (c_st x)) (s_hlen (c_st x))) (c_cb x) with
+    | SOOB => COOB
+    | SRet rc s c _ _ => CRet 0 (mkcell s c 1 (if rc =? 0 then 1 else c_si4 x) (c_buf x))
+    end.
+Proof. exact sysinfo1_redecode. Qed.
+Print Assumptions c20_hist_si1_redecode.
+
+(* ORDER INDEPENDENCE.  A cell that has seen neither SI1 nor SI4 (any buffer content, any previous list); an SI4 message of any
+   length whose CBCH Mobile Allocation IE is complete and ends within the first 23 octets (hdr = the 13 fixed octets, pre = the
+   optional channel description, tail = anything); SI1 brings the table freq1.  Then 'SI4, SI1' and 'SI1, SI4' end in the SAME cell xe:
+   list / hopp_len / flags are exactly the decoder's result s' on the IE value octets v with the table of SI1 *)
+Theorem c20_hist_order_independent : forall hdr pre l v tail x0 freq1,
+  Zlength hdr = 13 -> octets (hdr ++ pre ++ 114 :: l :: v ++ tail) -> cd_ie pre -> Zlength v = l ->
+  Zlength (hdr ++ pre ++ 114 :: l :: v) <= 23 ->
+  cell_ok x0 -> c_si1 x0 = 0 -> c_si4 x0 = 0 -> Zlength freq1 = 1024 ->
+  exists rc s' x1 x1',
+    decode freq1 v l (s_hop (c_st x0)) (s_hlen (c_st x0)) 1 = Ok rc s' /\
+    let msg := hdr ++ pre ++ 114 :: l :: v ++ tail in
+    let n := Z.to_nat (Z.min (Zlength msg) 23) in
+    let xe := mkcell s' (cd_fields pre (c_cb x0)) 1 1 (firstn n msg ++ skipn n (c_buf x0)) in
+    sysinfo4 msg x0 = CRet 0 x1 /\ c_st x1 = c_st x0 /\ sysinfo1 freq1 x1 = CRet 0 xe /\
+    sysinfo1 freq1 x0 = CRet 0 x1' /\ sysinfo4 msg x1' = CRet 0 xe.
+Proof. exact order_thm. Qed.
+Print Assumptions c20_hist_order_independent.
+
+(* ... for 0..8 bitmap octets that common result is the specified list *)
+Theorem c20_hist_order_spec : forall hdr pre l v tail x0 freq1,
+  Zlength hdr = 13 -> octets (hdr ++ pre ++ 114 :: l :: v ++ tail) -> cd_ie pre -> Zlength v = l -> l <= 8 ->
+  Zlength (hdr ++ pre ++ 114 :: l :: v) <= 23 ->
+  cell_ok x0 -> c_si1 x0 = 0 -> c_si4 x0 = 0 -> Zlength freq1 = 1024 ->
+  exists freq' xe x1 x1',
+    let msg := hdr ++ pre ++ 114 :: l :: v ++ tail in
+    let sel := spec_hopping freq1 v l in
+    c_st xe = mkst freq' (sel ++ skipn (length sel) (s_hop (c_st x0))) (Zlength sel) /\
+    sysinfo4 msg x0 = CRet 0 x1 /\ sysinfo1 freq1 x1 = CRet 0 xe /\
+    sysinfo1 freq1 x0 = CRet 0 x1' /\ sysinfo4 msg x1' = CRet 0 xe.
+Proof. exact order_spec. Qed.
+Print Assumptions c20_hist_order_spec.
+
+(* the bound 'IE within the first 23 octets' is needed: a 25-octet message (channel description + a 6-octet Mobile Allocation that
+   ends at octet 25) is cut by the memcpy; 'SI4, SI1' leaves the list empty (the re-decode finds the IE cut, -EIO dropped),
+   'SI1, SI4' builds 10 20 0.  (BCCH blocks have 23 octets; gsm48_rr.c does not check that, grr.c does.)
+   hobs = [rc; si1; si4; hopp_len; hopping[0..3]] *)
+Theorem c20_hist_order_long_refuted :
+  Zlength msg25 = 25 /\
+  hobs (after (sysinfo4 msg25 (x00 (repeat 0 23))) (sysinfo1 T1)) = [0; 1; 1; 0; 7; 7; 7; 7] /\
+  hobs (after (sysinfo1 T1 (x00 (repeat 0 23))) (sysinfo4 msg25)) = [0; 1; 1; 3; 10; 20; 0; 7].
+Proof. exact order_long_refuted. Qed.
+Print Assumptions c20_hist_order_long_refuted.
+
+(* and a message WITHOUT the IE that is shorter than the buffer is not order independent either: the re-decode runs over the old
+   octets behind it; here a 13-octet SI4 into a buffer that still holds '72 01 0b' at octets 13..15 makes 'SI4, SI1' build 10 20 0
+   from the old octets, while 'SI1, SI4' leaves the list empty *)
+Theorem c20_hist_short_stale_refuted :
+  Zlength hdr0 = 13 /\ cell_ok (x00 stale_buf) /\
+  hobs (after (sysinfo4 hdr0 (x00 stale_buf)) (sysinfo1 T1)) = [0; 1; 1; 3; 10; 20; 0; 7] /\
+  hobs (after (sysinfo1 T1 (x00 stale_buf)) (sysinfo4 hdr0)) = [0; 1; 1; 0; 7; 7; 7; 7].
+Proof. exact short_stale_refuted. Qed.
+Print Assumptions c20_hist_short_stale_refuted.
